@@ -19,3 +19,146 @@ pub fn memarg_of(op: &Operator) -> Option<MemArg> {
         memory: field("memory: ")? as u32,
     })
 }
+
+/// One memarg-carrying instruction discovered from the decoder itself.
+pub struct MemOp {
+    /// variant name of wasmparser::Operator
+    pub name: String,
+    prefix: Option<u8>,
+    code: u32,
+    max_align: u8,
+    /// bytes that follow the memarg (a lane index)
+    tail: usize,
+}
+
+fn leb(mut v: u32, out: &mut Vec<u8>) {
+    loop {
+        let b = (v & 0x7f) as u8;
+        v >>= 7;
+        if v == 0 {
+            out.push(b);
+            break;
+        }
+        out.push(b | 0x80);
+    }
+}
+
+impl MemOp {
+    /// the instruction's bytes with memory index `mem`, natural alignment, offset 0
+    pub fn bytes(&self, mem: u32) -> Vec<u8> {
+        let mut b = vec![];
+        match self.prefix {
+            Some(p) => {
+                b.push(p);
+                leb(self.code, &mut b);
+            }
+            None => b.push(self.code as u8),
+        }
+        leb(0x40 | self.max_align as u32, &mut b); // bit 6: an explicit memory index follows
+        leb(mem, &mut b);
+        leb(0, &mut b); // offset
+        for _ in 0..self.tail {
+            b.push(0);
+        }
+        b
+    }
+}
+
+/// Every instruction that carries a MemArg, found by asking wasmparser to decode all opcodes (so that the list
+/// cannot lag behind the decoder, and does not come from wirm's own tables).
+pub fn discover() -> Vec<MemOp> {
+    let mut out: Vec<MemOp> = vec![];
+    let mut seen = std::collections::HashSet::new();
+    for prefix in [None, Some(0xFCu8), Some(0xFD), Some(0xFE)] {
+        let max = if prefix.is_none() { 0xff } else { 0x1ff };
+        for code in 0..=max {
+            let mut b = vec![];
+            match prefix {
+                Some(p) => {
+                    b.push(p);
+                    leb(code, &mut b);
+                }
+                None => b.push(code as u8),
+            }
+            let head = b.len();
+            leb(0x40, &mut b);
+            leb(5, &mut b); // memory index 5
+            leb(0, &mut b);
+            let after_memarg = b.len();
+            b.extend_from_slice(&[0, 0, 0x0b, 0x0b]);
+            let mut r = wasmparser::OperatorsReader::new(wasmparser::BinaryReader::new(&b, 0));
+            let Ok(op) = r.read() else { continue };
+            let Some(m) = memarg_of(&op) else { continue };
+            if m.memory != 5 {
+                continue;
+            }
+            let used = r.original_position();
+            if used < after_memarg || used - after_memarg > 1 {
+                continue;
+            }
+            let name = format!("{:?}", op).split(|c: char| c == ' ' || c == '{').next().unwrap_or("").to_string();
+            if !seen.insert(name.clone()) {
+                continue;
+            }
+            let _ = head;
+            out.push(MemOp { name, prefix, code, max_align: m.max_align, tail: used - after_memarg });
+        }
+    }
+    out
+}
+
+/// WAT text of each discovered instruction for memory index `mem` (through wasmprinter, so that the base modules,
+/// which are written as text, can contain them).  The instructions sit in unreachable code of the mini module.
+pub fn wat_lines(ops: &[MemOp], nmem: u32, mem_of: &dyn Fn(usize) -> u32) -> Vec<String> {
+    use wasm_encoder::*;
+    let mut m = Module::new();
+    let mut t = TypeSection::new();
+    t.ty().function(vec![], vec![]);
+    m.section(&t);
+    let mut f = FunctionSection::new();
+    f.function(0);
+    m.section(&f);
+    let mut ms = MemorySection::new();
+    for _ in 0..nmem {
+        ms.memory(MemoryType { minimum: 1, maximum: None, memory64: false, shared: false, page_size_log2: None });
+    }
+    m.section(&ms);
+    let mut body = vec![0u8]; // no locals
+    body.push(0x00); // unreachable
+    for (k, op) in ops.iter().enumerate() {
+        body.extend_from_slice(&op.bytes(mem_of(k)));
+        body.push(0x01); // nop as a separator
+    }
+    body.push(0x0b);
+    let mut code = vec![];
+    leb(1, &mut code);
+    leb(body.len() as u32, &mut code);
+    code.extend_from_slice(&body);
+    m.section(&RawSection { id: 10, data: &code });
+    let bytes = m.finish();
+    let text = wasmprinter::print_bytes(&bytes).expect("print mini module");
+    // the instructions between `unreachable` and the end, one per `nop` separator
+    let mut lines = vec![];
+    let mut cur = String::new();
+    let mut started = false;
+    for l in text.lines() {
+        let l = l.trim();
+        if !started {
+            if l == "unreachable" {
+                started = true;
+            }
+            continue;
+        }
+        if l == "nop" {
+            lines.push(cur.trim().to_string());
+            cur.clear();
+        } else if l.starts_with(')') {
+            break;
+        } else {
+            cur.push(' ');
+            cur += l;
+        }
+    }
+    assert_eq!(lines.len(), ops.len(), "wasmprinter text does not split per instruction:\n{}", text);
+    lines
+}
